@@ -29,6 +29,7 @@ def run(rep, tier, seed):
                 for (reported, total, avail) in hl[1]:
                     if reported != total or reported > avail:
                         fails.append('%s: header length %d, fields total %d, buffer %d' % (stack, reported, total, avail))
+        pc.bytes_case(b, stack, bits, stack)
         b.add('%s:%s:%s' % (stack, klass, 'accepted' if out[0] == 'OK' else 'rejected'), pc.model_line(stack, bits), out, pc.parse_model, fails,
               dict(layer='parser', op='parse', stack=stack, bits=bits), key=(stack, bits))
     b.run()
